@@ -10,6 +10,7 @@ import MithrilModel.Handlers.C07
 import MithrilModel.Handlers.C08
 import MithrilModel.Handlers.C09
 import MithrilModel.Handlers.C10
+import MithrilModel.Handlers.C11
 import MithrilModel.Handlers.C12
 import MithrilModel.Handlers.C13
 import MithrilModel.Handlers.C14
@@ -36,6 +37,7 @@ def dispatch (line : String) : String :=
       else if r.op.startsWith "c08." then Handlers.C08.handle r
       else if r.op.startsWith "c09." then Handlers.C09.handle r
       else if r.op.startsWith "c10." then Handlers.C10.handle r
+      else if r.op.startsWith "c11." then Handlers.C11.handle r
       else if r.op.startsWith "c12." then Handlers.C12.handle r
       else if r.op.startsWith "c13." then Handlers.C13.handle r
       else if r.op.startsWith "c14." then Handlers.C14.handle r
